@@ -172,7 +172,7 @@ def generate(rng, tier, run, seed=0):
         sid = sids[k]
         op = rng.choice(['set', 'set', 'get_value', 'get_value', 'get'])
         ele = rng.choice([1, 1, 2, 3, 4, 5, 8, 12, 17, 25])
-        comp = rng.choice([None, None, None, 1, 2, 3, 6])
+        comp = rng.choice([None, None, None, None, 1, 2, 3, 6, 10, 12, 15])
         if sid == 'ISA' and (ele == 16 or rng.random() < 0.6):
             comp = None
         r = rng.random()
